@@ -291,3 +291,249 @@ def ba_invert(C, self, pos=None):
         C.throw('IndexError')
     _set_bits(C, self, BA(V.n, lambda i: _sel(sym.eq(i, p), _not(a(i)), a(i))))
     return None
+
+
+# ---- item and slice assignment ---------------------------------------------------------------------------------------
+def _setitem_shapes(states):
+    out = []
+    keys = [{'key': 'index'}] + [dict(d, key='slice') for d in opt_combos(['start', 'stop', 'step'], 'step')]
+    vals = [('obj', 'Bits', 'immutable'), ('self',), ('str',), ('int',)]
+    for cls, st in states:
+        for d in keys:
+            for vk in vals:
+                if vk == ('int',) and d['key'] == 'slice' and d['step'] not in (None,):
+                    continue          # integer with a step goes through set(): bounded (loop over a range)
+                def build(S, interp, cls=cls, st=st, d=d, vk=vk):
+                    o = m_bits(S, interp, 'self', cls, st)
+                    k = _mk_key(S, interp, d, o)[0]
+                    v = S.int('v') if vk == ('int',) else m_operand(S, interp, 'val', vk, o)
+                    return [o, k, v], {}
+
+                def real(vals_, cls=cls, st=st, d=d, vk=vk):
+                    o = r_bits(vals_, 'self', cls, st)
+                    k = _r_key(vals_, d, o)[0]
+                    v = vals_['v'] if vk == ('int',) else r_operand(vals_, 'val', vk, o)
+                    return [o, k, v], {}
+                out.append(Shape(f'{cls}/{cname(d)}/{opname(vk)}', build, real))
+    return out
+
+
+def _setitem_spec(stream):
+    from .values import enc_int
+
+    def f(C, self, key, value):
+        V = bits(self)
+        n = V.n
+        if isinstance(key, slice):
+            if sym.is_intlike(value):
+                # an integer is stored as the unsigned (>= 0) or two's-complement (< 0) value of the slice's length
+                first, count, step = spec.pyslice(C, n, key.start, key.stop, None)
+                W = enc_int(C, value, count, bool(sym.truth(value < 0)))
+            else:
+                W = promote_bits(C, value)
+            tmp = BA(V.n, V.bit)
+            tmp.pyvc_setitem(C.interp, key, BA(W.n, W.bit))      # list semantics of slice assignment (assumed contract of a bit list)
+            R = tmp
+        else:
+            if sym.is_intlike(value):
+                if sym.truth(lnot(lor(sym.eq(value, 0), sym.eq(value, 1), sym.eq(value, -1)))):
+                    C.throw('ValueError')
+                j = ite(key < 0, key + n, key)
+                if sym.truth(lor(j < 0, j >= n)):
+                    C.throw('IndexError')
+                b = lnot(sym.eq(value, 0))
+                a = V.bit
+                R = BA(n, lambda i: _sel(sym.eq(i, j), b, a(i)))
+            else:
+                W = promote_bits(C, value)
+                j = ite(key < 0, key + n, key)
+                if sym.truth(lor(j < 0, j >= n)):
+                    C.throw('IndexError')
+                R = splice(V, j, j + 1, W)
+        _set_bits(C, self, R)
+        if stream and sym.truth(lnot(sym.eq(R.n, n))):
+            _pos_after(self, 0)
+        return None
+    return f
+
+
+contract('bitarray_.BitArray.__setitem__', shapes=_setitem_shapes([('BitArray', 'plain')]), props={'C03'}, kind='public',
+         note="a[k] = v: list semantics -- a step-1 slice is spliced (the length may change), an extended slice is replaced "
+              "element-wise (sizes must match), a single index is replaced by the bits of v (or by the bit 0/1 for an int); an integer "
+              "assigned to a slice is stored in the slice's length; IndexError / ValueError leave a unchanged")(_setitem_spec(False))
+contract('bitstream.BitStream.__setitem__', shapes=_setitem_shapes([('BitStream', 'plain')]), props={'C03', 'C06'}, kind='public',
+         note="as BitArray.__setitem__; pos is reset to 0 iff the length changed")(_setitem_spec(True))
+
+
+# ---- set / invert with several positions (a list of symbolic positions, or a range) -----------------------------------------
+from pyvc.interp import SRange
+
+
+def _multi_pos_shapes(states, with_value):
+    out = []
+    kinds = [('list', 0), ('list', 1), ('list', 2), ('list', 3), ('range', 'pos', 'inside'), ('range', 'neg', 'inside'), ('range', 'any', 'any')]
+    for cls, st in states:
+        for kind in kinds:
+            def build(S, interp, cls=cls, st=st, kind=kind):
+                o = m_bits(S, interp, 'self', cls, st)
+                if kind[0] == 'list':
+                    pos = [S.int(f'p{i}') for i in range(kind[1])]
+                else:
+                    a, b, c = S.int('ra'), S.int('rb'), S.int('rc')
+                    if kind[1] == 'any':
+                        S.assume(lnot(sym.eq(c, 0)))
+                    else:
+                        S.assume(c > 0 if kind[1] == 'pos' else c < 0)
+                    pos = SRange(a, b, c)
+                    if kind[2] == 'inside':
+                        # a non-empty range all of whose positions are valid non-negative indices (the fast path)
+                        n = bits(o).n
+                        cnt = interp.call(interp.builtins['len'], [pos], {})
+                        last = a + (cnt - 1) * c
+                        S.assume(land(cnt > 0, a >= 0, a < n, last >= 0, last < n))
+                return ([o, S.bool('value'), pos] if with_value else [o, pos]), {}
+
+            def real(vals, cls=cls, st=st, kind=kind):
+                o = r_bits(vals, 'self', cls, st)
+                pos = [vals[f'p{i}'] for i in range(kind[1])] if kind[0] == 'list' else range(vals['ra'], vals['rb'], vals['rc'])
+                return ([o, vals['value'], pos] if with_value else [o, pos]), {}
+
+            def gen(rng, cls=cls, kind=kind):
+                n = rng.randint(0, 24)
+                v = {'self': [rng.random() < 0.5 for _ in range(n)], 'ra': rng.randint(-n - 3, n + 3), 'rb': rng.randint(-n - 3, n + 3),
+                     'rc': rng.choice([1, 1, 2, 3, 7, -1, -1, -2, -5]), 'value': rng.random() < 0.5}
+                if cls == 'BitStream':
+                    v['self.pos'] = rng.randint(0, n)
+                return v
+            loops = kind[0] == 'range' and (kind[2] == 'any' or not with_value)
+            hard = kind[0] == 'range'       # nonlinear with a symbolic step: load-sensitive
+            out.append(Shape(f'{cls}/' + '-'.join(str(x) for x in kind), build, real, gen=gen if kind[0] == 'range' and kind[2] == 'any' else None,
+                             stable=not (loops or hard), bounded_only=loops, timeout_ms=5000 if hard else None))
+    return out
+
+
+def _positions(C, pos):
+    """the positions an iterable denotes, in order: a list of values, or (first, count, step) for a range"""
+    if isinstance(pos, SRange):
+        cnt = C.interp.call(C.interp.builtins['len'], [pos], {})
+        return ('range', pos.start, cnt, pos.step)
+    return ('list', list(pos))
+
+
+def _apply_positions(C, self, pos, f):
+    """apply bit -> f(bit) at every position in order; an out-of-range position raises IndexError after the earlier ones were applied"""
+    V = bits(self)
+    n = V.n
+    P = _positions(C, pos)
+    cur = BA(V.n, V.bit)
+    if P[0] == 'list':
+        for p in P[1]:
+            j = ite(p < 0, p + n, p)
+            if sym.truth(lor(j < 0, j >= n)):
+                _set_bits(C, self, cur)
+                C.throw('IndexError')
+            a = cur.bit
+            cur = BA(n, lambda i, a=a, j=j: _sel(sym.eq(i, j), f(a(i)), a(i)))
+        _set_bits(C, self, cur)
+        return None
+    _, first, cnt, step = P
+    # every position of the range must be a valid index (negative ones count from the end)
+    last = first + (cnt - 1) * step
+    if sym.truth(cnt > 0):
+        lo, hi = (first, last) if sym.truth(step > 0) else (last, first)
+        if sym.truth(lor(lo < -n, hi >= n)):
+            raise sym.Unsupported("range with an out-of-range position: which prefix is applied is left to the bounded stand-in")
+        if sym.truth(land(lo < 0, hi >= 0)):
+            raise sym.Unsupported("range straddling zero may name a position twice: left to the bounded stand-in")
+        a = V.bit
+
+        def newbit(i):
+            # i is selected iff i (or i - n) is first + t*step for some 0 <= t < cnt
+            def sel(x):
+                q, r = sym.floordiv_mod(x - first, step)
+                return land(sym.eq(r, 0), q >= 0, q < cnt)
+            return _sel(lor(sel(i), sel(i - n)), f(a(i)), a(i))
+        _set_bits(C, self, BA(n, newbit))
+    return None
+
+
+@contract('bitarray_.BitArray.set@positions', target='bitarray_.BitArray.set', shapes=_multi_pos_shapes(MUT_STATES, True),
+          props={'C03'}, kind='public',
+          note="set(value, positions): every listed position (negative from the end) becomes bool(value), nothing else changes; a range "
+               "means the positions it contains; an out-of-range position raises IndexError after the earlier positions were applied")
+def ba_set_positions(C, self, value, pos):
+    return _apply_positions(C, self, pos, lambda b: value)
+
+
+@contract('bitarray_.BitArray.invert@positions', target='bitarray_.BitArray.invert', shapes=_multi_pos_shapes(MUT_STATES, False),
+          props={'C03'}, kind='public',
+          note="invert(positions): every listed position is flipped once per occurrence; IndexError for an out-of-range position "
+               "after the earlier ones were applied")
+def ba_invert_positions(C, self, pos):
+    return _apply_positions(C, self, pos, lambda b: _not(b))
+
+
+# ---- byteswap (nested loops over patterns: bounded stand-in) -------------------------------------------------------------------
+def _byteswap_shapes():
+    out = []
+    for cls, st in MUT_STATES:
+        def build(S, interp, cls=cls, st=st):
+            return [m_bits(S, interp, 'self', cls, st), S.int('fmt'), mk_opt(S, 'start', 'int'), mk_opt(S, 'end', 'int'), S.bool('repeat')], {}
+
+        def real(vals, cls=cls, st=st):
+            return [r_bits(vals, 'self', cls, st), vals['fmt'], vals['start'], vals['end'], vals['repeat']], {}
+
+        def gen(rng, cls=cls):
+            n = rng.choice([0, 8, 16, 24, 32, 40, 48, 7, 20, 33, rng.randint(0, 64)])
+            fmt = rng.choice([0, 1, 2, 3, 4, 2, [1, 2], [2, 1], [1], 'h', '<2h', 'bh', -1, [0], [1, -1]])
+            v = {'self': [rng.random() < 0.5 for _ in range(n)], 'fmt': fmt, 'start': rng.choice([None, 0, 8, 3, rng.randint(-n - 2, n + 2)]),
+                 'end': rng.choice([None, n, 8, 16, rng.randint(-n - 2, n + 2)]), 'repeat': rng.random() < 0.6}
+            if cls == 'BitStream':
+                v['self.pos'] = rng.randint(0, n)
+            return v
+        out.append(Shape(f'{cls}/{st}', build, real, gen=gen, stable=False, bounded_only=True))
+    return out
+
+
+@contract('bitarray_.BitArray.byteswap', shapes=_byteswap_shapes(), props={'C03', 'C18'}, kind='public',
+          note="byteswap(fmt, start, end, repeat): within [start, end), for each complete repetition of the byte-size pattern (one "
+               "repetition only when repeat is False) the bytes of each group are reversed; nothing outside [start, end) and nothing "
+               "in an incomplete final pattern changes; the length never changes; returns the number of repetitions  (BOUNDED: nested loops)")
+def byteswap_spec(C, self, fmt=None, start=None, end=None, repeat=True):
+    import re as _re
+    V = bits(self)
+    D = [bool(V.bit(i)) for i in range(V.n)]
+    s, e = window(C, V, start, end)
+    codes = {'b': 1, 'B': 1, 'h': 2, 'H': 2, 'l': 4, 'L': 4, 'i': 4, 'I': 4, 'q': 8, 'Q': 8, 'e': 2, 'f': 4, 'd': 8}
+    if fmt is None or (isinstance(fmt, int) and fmt == 0):
+        sizes = [(e - s) // 8]
+    elif isinstance(fmt, int):
+        if fmt < 0:
+            C.throw('ValueError')
+        sizes = [fmt]
+    elif isinstance(fmt, str):
+        m = _re.match(r'^[<>@=]?((?:\d*[bBhHlLiIqQefd])+)$', fmt)
+        if not m:
+            C.throw('ValueError')
+        sizes = []
+        for t in _re.findall(r'\d*[bBhHlLiIqQefd]', m.group(1)):
+            sizes += [codes[t[-1]]] * (int(t[:-1]) if len(t) > 1 else 1)
+    else:
+        sizes = list(fmt)
+        if any((not isinstance(x, int)) or x < 0 for x in sizes):
+            C.throw('ValueError')
+    total = 8 * sum(sizes)
+    if total == 0:
+        return 0
+    reps = 0
+    p = s
+    while p + total <= e and (repeat or reps == 0):
+        q = p
+        for sz in sizes:
+            chunk = D[q:q + 8 * sz]
+            D[q:q + 8 * sz] = [b for k in range(sz - 1, -1, -1) for b in chunk[8 * k:8 * k + 8]]
+            q += 8 * sz
+        p += total
+        reps += 1
+    _set_bits(C, self, BA.concrete(D))
+    return reps
